@@ -177,3 +177,15 @@ Proof. exact wmts_bbox_is_rectangle. Qed.
 Theorem wmts_featureinfo_uses_served_tile :
   forall g r r' col row l, wmts_bbox g r col row l = wmts_bbox g r' col row l.
 Proof. exact Geo_proofs.wmts_featureinfo_uses_served_tile. Qed.
+
+(* The single-tile chain, composed: a WMS request whose bbox is exactly the rectangle of a tile of the cache grid and
+   whose size is the tile size selects the level of that tile (closest_level; stretch factor >= 1, strictly
+   decreasing resolutions, max_shrink_factor >= 1), the affected tiles are that tile alone and src_bbox is the
+   request rectangle - for which single_tile_unresampled says that the stored image is returned untouched. *)
+Theorem single_tile_chain :
+  forall g x y l,
+    wf g -> decreasing_res g -> valid_level g l = true -> (10 <= res_at g l)%Z ->
+    (0 < sf_d g <= sf_n g)%Z -> (0 < shr_d g <= shr_n g)%Z ->
+    limit_tile g x y l = Some (x, y, l) ->
+    cache_map_plan g (tile_bbox g x y l) (tw g) (th g) = Mosaic l (tile_bbox g x y l) 1 1 [Some (x, y, l)].
+Proof. exact single_tile_plan. Qed.
